@@ -180,6 +180,39 @@ func runC20(c *Ctx) {
 			}
 		}
 	}
+	// records that share a Go struct but not a type: unknown types held as RFC 3597 data, and the RDATA-less
+	// records of dynamic updates (*ANY with any Rrtype); equal octets except for the TYPE field are not duplicates
+	for i := 0; i < c.Scale(400, 8000); i++ {
+		unknown := func() uint16 {
+			for {
+				typ := uint16(r.Intn(65536))
+				if _, known := t.byCode[typ]; !known && typ != dns.TypeOPT && typ != dns.TypeANY && typ != dns.TypeNXNAME && typ != 0 {
+					return typ
+				}
+			}
+		}
+		t1, t2 := unknown(), unknown()
+		if t1 == t2 {
+			t2 = unknown()
+		}
+		owner := genLabels(r, 0)
+		rd := r.Bytes(r.Intn(12))
+		wa := assembleRR(owner, t1, 1, 5, rd)
+		wb := assembleRR(owner, t2, 1, 5, rd)
+		a, _, e1 := dns.UnpackRR(wa, 0)
+		b, _, e2 := dns.UnpackRR(wb, 0)
+		if e1 == nil && e2 == nil && t1 != t2 {
+			c20Pair(c, a, b, wa, wb)
+			out := dns.Dedup([]dns.RR{dns.Copy(a), dns.Copy(b)}, nil)
+			c.Pred("pairs", "dedup-keeps-different-types", "a="+hx(wa)+" b="+hx(wb), len(out) == 2, fmt.Sprint(len(out)), "2", true)
+		}
+		name := presentLabels(owner)
+		x := &dns.ANY{Hdr: dns.RR_Header{Name: name, Rrtype: commonTypes[r.Intn(len(commonTypes))], Class: dns.ClassANY}}
+		y := &dns.ANY{Hdr: dns.RR_Header{Name: name, Rrtype: commonTypes[r.Intn(len(commonTypes))], Class: dns.ClassANY}}
+		want := x.Hdr.Rrtype == y.Hdr.Rrtype
+		d := dns.IsDuplicate(x, y)
+		c.Pred("pairs", "isdup-iff-wire:ANY-struct", fmt.Sprintf("%s types %d %d", name, x.Hdr.Rrtype, y.Hdr.Rrtype), d == want, b01(d), b01(want), true)
+	}
 	// Dedup: lists with duplicate patterns
 	nl := c.Scale(3000, 60000)
 	for i := 0; i < nl; i++ {
